@@ -133,6 +133,13 @@ def run_crash(run):
             env["VERIF_MAXSUBSET"] = "5"
         code, out = vlib.run_driver(binp, "TestCrash", env=env, timeout=3400)
         if "DRIVER-DONE" not in out:
+            bp = vlib.pebble_background_panic(out)
+            if bp:
+                run.violation({"kind": "pebble-background-panic", "label": rc["profile"]},
+                              "a background goroutine of the store under test panicked during the crash workload: " + bp,
+                              replay_obj={"cmd": "python3 /verif/vcheck run %s --tier %s --seed %d" % (run.prop, run.tier, run.seed),
+                                          "output_tail": out[-4000:]})
+                return
             raise vlib.Inconclusive("dbdrv TestCrash died:\n" + out[-3000:])
         for l in out.splitlines():
             if l.startswith("DRIVER-DONE"):
